@@ -168,6 +168,12 @@ def main(argv=None):
 
     def _alarm(signum, frame):
         print(f"[{prop_id}] machinery timeout after {time.time() - t0:.0f}s (not a verdict)", file=sys.stderr)
+        try:  # forked workers would otherwise keep running (and keep stdout open)
+            import multiprocessing
+            for ch in multiprocessing.active_children():
+                ch.kill()
+        except Exception:
+            pass
         os._exit(2)
 
     signal.signal(signal.SIGALRM, _alarm)
